@@ -188,7 +188,8 @@ def mkf(case, what, **sig):
 
 # ------------------------------------------------------------------ scenarios
 def new_case(sess, rng, tb, **over):
-    cfg = {'gmap': None, 'rm': int(rng.random() < 0.5), 'no_open': int(rng.random() < 0.5), 'no_opendir': int(rng.random() < 0.5)}
+    cfg = {'gmap': None, 'rm': int(rng.random() < 0.5), 'no_open': int(rng.random() < 0.5), 'no_opendir': int(rng.random() < 0.5),
+           'no_writeback': int(rng.random() < 0.3), 'killpriv_v2': int(rng.random() < 0.3), 'no_readdir': int(rng.random() < 0.2), 'seal_size': int(rng.random() < 0.2)}
     cfg.update(over)
     return Case(sess, cfg, tb)
 
